@@ -102,3 +102,17 @@ Print Assumptions C08_u32_roundtrip.
 Print Assumptions C08_vars_roundtrip.
 Print Assumptions C08_archive_roundtrip.
 Print Assumptions C08_shape_rel_meaning.
+
+(* THE FORMAT'S BYTE CONSTANTS ARE THE SOURCE'S.  translate/gen_serial.py re-reads serializer.cpp / deserializer.cpp on every run:
+   the shape tags written by serializeShape and accepted by the deserialiser, the string delimiter and the escape rule of
+   serializeString (recognised by shape: quote, per character `if (c == Q || c == B) put(B); put(c)`, quote) -
+   Gen/SerialConst_gen.v - and they are the constants of the codec model the round-trip theorem is about (the opcode numbering
+   and END_OF_ITEM are tied by Gen/OpcodeTable_gen.v) *)
+From LF Require Gen.SerialConst_gen.
+Theorem C08_format_constants_from_source :
+  SerialConst_gen.tag_full_gen = TAG_T /\ SerialConst_gen.tag_ref_gen = TAG_t /\
+  SerialConst_gen.tag_read_1_gen = TAG_T /\ SerialConst_gen.tag_read_2_gen = TAG_t /\
+  SerialConst_gen.quote_gen = QUOTE /\ SerialConst_gen.escape_gen = BSLASH /\
+  SerialConst_gen.escaped_1_gen = QUOTE /\ SerialConst_gen.escaped_2_gen = BSLASH.
+Proof. repeat split. Qed.
+Print Assumptions C08_format_constants_from_source.
